@@ -56,6 +56,8 @@ CONSTANTS
     DelFaults,            \* SUBSET {"err","cas","die"}: faults of compaction deletes
     CompactDetail,        \* TRUE: the compactor takes one step per engine deletion (CStart / CIter / CDel);
                           \*       FALSE: one request is one atomic step (CompactReq)
+    LateCompact,          \* generator bias: compaction requests only arrive once every writer has returned (they then race
+                          \*       the sequencer and the repair loop); FALSE in every model-checking config
     EagerSeq,             \* generator bias: every event is flushed and broadcast before the next write starts
     FixedOps,             \* << >>, or the operation sequence every writer issues (generator configs)
     LazyWatchers,         \* watchers whose forwarding loop only runs when nothing else can (generator bias
@@ -717,7 +719,7 @@ ReadersIdle == \A r \in Readers : rdpc[r] = "idle"
 \* COMPACTOR (backend.Compact): one request = clamp, raise the record, scan and delete. Atomic here;
 \* the record-by-record behaviour incl. failures and crashes is explored in KBSeq.tla / Scanner.tla.
 CompactReq(c) ==
-    /\ ~CompactDetail /\ ~fin
+    /\ ~CompactDetail /\ ~fin /\ (LateCompact => \A w \in Writers : wpc[w] = "idle" /\ wi[w] > OpsPer)
     /\ cn[c] < MaxCompacts
     /\ \E req \in CompactRevs :
          LET R0 == IF req = 0 \/ req > committed THEN committed ELSE req
